@@ -86,14 +86,34 @@ func (r *replicator) start(stop <-chan struct{}) {
 		r.lastSeen = req.received
 		r.mu.Unlock()
 
-		// Update the ISR replica's latest offset for the partition. This is
-		// used by the leader to know when to commit messages.
-		r.partition.updateISRLatestOffset(r.replica, req.Offset)
-
 		var (
 			latest   = r.partition.log.NewestOffset()
 			earliest = r.partition.log.OldestOffset()
 		)
+
+		// A replica can only hold what the leader has written, so an offset
+		// past the leader's log end says nothing about the leader's log, e.g.
+		// the leader lost the unflushed tail of its log in a crash and is
+		// continuing the leader epoch. Do not count it as progress, otherwise
+		// messages the leader writes up to that offset would be committed
+		// without the replica having them, and do not count the replica as
+		// caught up so that it leaves the ISR if it stays ahead.
+		if req.Offset > latest {
+			r.partition.srv.logger.Errorf(
+				"Replica %s for partition %s is ahead of the leader's log "+
+					"(replica latest %d, leader latest %d), ignoring its offset",
+				r.replica, r.partition, req.Offset, latest)
+			// Send a response to short-circuit request timeout.
+			if err := r.sendHW(req.request); err != nil {
+				r.partition.srv.logger.Errorf("Failed to send HW for partition %s to replica %s: %v",
+					r.partition, req.ReplicaID, err)
+			}
+			continue
+		}
+
+		// Update the ISR replica's latest offset for the partition. This is
+		// used by the leader to know when to commit messages.
+		r.partition.updateISRLatestOffset(r.replica, req.Offset)
 
 		// Check if we're caught up.
 		if req.Offset >= latest {
